@@ -15,6 +15,22 @@ func checkC05(c *Ctx) {
 	c.NotDecided = []string{"injectivity as a theorem about all strings (O3 is its structural core)", "pointer identity for concrete pairs of derivations"}
 	eng := c.newLockEngine()
 	c.checkDoubleChecked("O1 get-or-create", eng)
+	// O5 (shared with C04 O4 / C07 O3): the key a scope is registered under keeps describing it.
+	// A scope's tags are a private copy (a caller who keeps mutating the map it passed in would
+	// otherwise change the tag set of a scope that stays registered under the old key), and an
+	// entry is removed from the registry only while it is known to be the scope that was found
+	// (a blind delete by key unregisters a live scope with the same identity, after which the same
+	// derivation returns a different scope).
+	if merge, copySan := c.fn("", "", "mergeRightTags"), c.fn("", "scope", "copyAndSanitizeMap"); merge != nil && copySan != nil {
+		c.checkTagsIngress("O5 key-matches-tags", merge, copySan)
+	} else {
+		c.missing("O5 key-matches-tags", "tally.mergeRightTags / scope.copyAndSanitizeMap")
+	}
+	if fM, clr := c.field("", "scopeBucket", "s"), c.fn("", "scope", "clearMetrics"); fM != nil && clr != nil {
+		c.checkGapSafeDeletes("O5 registered-identity", fM, eng, clr)
+	} else {
+		c.missing("O5 registered-identity", "tally.scopeBucket.s / scope.clearMetrics")
+	}
 
 	w := c.fn("", "", "keyForPrefixedStringMapsAsKey")
 	if w == nil {
